@@ -73,6 +73,10 @@ def run_units(case, rng, cls):
         for step in range(nsteps):
             dt = float(10 ** rng.uniform(-3, 2))
             alpha = float(10 ** rng.uniform(-1, 1))
+            if step > 0:
+                # every step starts from exactly corresponding states: otherwise the (cond-amplified) rounding difference of the
+                # previous solves is fed through the nonlinear limiter and is mistaken for a unit dependence
+                phiB.value = np.asarray(phiA.value) * K
 
             def terms(phi, m, Df, uf, Ts, Ks):
                 t = [pf.transientTerm(phi, dt * Ts, alpha), -pf.diffusionTerm(Df)]
